@@ -7,7 +7,8 @@ AREA = "c14"
 LEAN_PROPS = "Litep2pVerif.Props.C14"
 THEOREMS = ["bucket_placement", "local_never_stored", "bucket_bound", "capacity_is_twenty", "index_in_range",
             "connected_not_evicted", "junk_invisible", "iter_order", "iter_visits", "bucket_order",
-            "closest_correct", "closest_dup_witness"]
+            "closest_correct", "closest_dup_witness", "coordinator_table_is_table_run",
+            "connected_peer_stays_connected_in_table", "connected_peer_kept_by_event", "add_known_peer_downgrades_witness"]
 CONSTS = ["KBUCKET_CAPACITY", "NUM_BUCKETS"]
 MANIFEST = {
     "text": "Lean 4 theorems about an executable model of RoutingTable/KBucket/ClosestBucketsIter: by induction over all "
@@ -388,6 +389,30 @@ def nontrivial(case, out):
 
 
 def matches_known(k, v):
-    """No open known finding: the duplicate of DESIGN §8-l is repaired by a `fix:` commit."""
+    """The duplicate of DESIGN §8-l is repaired by a `fix:` commit. Open: `add-known-peer-downgrades-open-connection`
+    (coordinator level) - matches ONLY an open-connection peer found not-Connected right after an `add` for that very
+    peer while it has no PeerContext; a downgrade by any other event (dial failure, another peer's events) or a
+    displacement without that add is reported."""
     sig = k.get("signature", {})
-    return bool(sig) and all(v.get(a) == b for a, b in sig.items())
+    return k.get("property") == ID and bool(sig) and all(v.get(a) == b for a, b in sig.items())
+
+
+# ---------------------------------------------------------------- coordinator-level histories (engine: extra_cases)
+# RoutingTable/KBucket alone cannot show what the event handlers of `Kademlia` do with the table (which table call
+# each ConnectionEstablished / ConnectionClosed / DialFailure / AddKnownPeer makes, with which ConnectionType): those
+# histories run in the c16 area (`t` box: the real Kademlia event loop with dictated keys, model
+# Model/Kad/TableWiring.lean over the table model), judged by kadwire.oracle_wire: a peer whose connection is open is
+# `Connected` in the table and keeps its slot, whatever else happens.
+def extra_cases(rng, tier):
+    from . import kadwire
+    yield "C16", list(kadwire.gen_wire_cases(rng, tier))
+
+
+def oracle_extra(xpid, case, out):
+    from . import kadwire
+    return [dict(v, msg="(real Kademlia event loop, c16 area) " + v["msg"]) for v in kadwire.oracle_wire(case, out)]
+
+
+def stats_extra(xpid, case, out, acc):
+    from . import kadwire
+    kadwire.stats_wire(case, out, acc)
